@@ -1,9 +1,8 @@
-(** Laws of the temporal text model (Value/Temporal.v):
-    - round trips [parse (show v) = Ok v] for every valid DATE (non-negative year), TIME (every
-      nanosecond value) and TIMESTAMP, the INTERVAL round trip, injectivity of the printers;
-    - totality of the parsers: [Date::from_str] never panics; [Time], [Timestamp] and [Interval]
-      parsing never panics under explicit side conditions, and does panic without them
-      ([_refuted] witnesses). *)
+(** Laws of the temporal text model (Value/Temporal.v, the parsers as repaired by the C22 fixes):
+    - round trips [parse (show v) = Ok v] for EVERY valid DATE (negative years included), TIME
+      (every nanosecond value) and TIMESTAMP, the INTERVAL round trip, injectivity of the printers;
+    - totality: none of the four parsers panics, on any string; [Interval::new] always returns a
+      triple whose fields fit i32 / i32 / i64. *)
 From Coq Require Import Strings.String.
 From Coq Require Import List ZArith Bool Lia.
 From VibeSQL Require Import Value.SqlValue Value.Dec Value.DecLaws Value.RStr Value.RStrLaws Value.Temporal.
@@ -26,15 +25,6 @@ Qed.
 Lemma eqb46 d : (46 =? d) = true -> d = 46. Proof. intros H. apply Z.eqb_eq in H. lia. Qed.
 
 (** * DATE *)
-Lemma show_date_split y m d : 0 <= y -> 0 <= m -> 0 <= d ->
-  split_on 45 (show_date y m d) = [show_int_w 4 y; show_int_w 2 m; show_int_w 2 d].
-Proof.
-  intros Hy Hm Hd. unfold split_on, show_date. cbn [app].
-  rewrite split_by_app; [| apply digits_none; [lia | apply show_int_w_digits; lia] | reflexivity].
-  rewrite split_by_app; [| apply digits_none; [lia | apply show_int_w_digits; lia] | reflexivity].
-  rewrite split_by_none; [reflexivity | apply digits_none; [lia | apply show_int_w_digits; lia]].
-Qed.
-
 Lemma date_new_ok y m d : 1 <= m <= 12 -> 1 <= d <= 31 -> date_new y m d = ROk (VDate y m d).
 Proof.
   intros Hm Hd. unfold date_new.
@@ -43,29 +33,52 @@ Proof.
   reflexivity.
 Qed.
 
-(** every DATE that [Date::new] accepts and whose year is not negative reads back from its text *)
-Theorem date_roundtrip_thm y m d :
-  valid_date y m d -> negative_year (VDate y m d) = false ->
-  parse_date (show_date y m d) = ROk (VDate y m d).
+(** month-day tail of a date text *)
+Lemma md_split (ytext : str) m d : forallb is_digit ytext = true -> 0 <= m -> 0 <= d ->
+  split_on 45 (ytext ++ 45 :: show_int_w 2 m ++ 45 :: show_int_w 2 d) = [ytext; show_int_w 2 m; show_int_w 2 d].
 Proof.
-  intros (Hy & Hm & Hd) Hneg. cbn [negative_year] in Hneg. apply Z.ltb_ge in Hneg.
-  unfold parse_date. rewrite show_date_split by lia.
-  unfold parse_i32, parse_u8. rewrite !parse_show_int by lia.
-  apply date_new_ok; assumption.
+  intros Hy Hm Hd. unfold split_on.
+  rewrite split_by_app; [| apply digits_none; [lia | exact Hy] | reflexivity].
+  rewrite split_by_app; [| apply digits_none; [lia | apply show_int_w_digits; lia] | reflexivity].
+  rewrite split_by_none; [reflexivity | apply digits_none; [lia | apply show_int_w_digits; lia]].
 Qed.
 
-Example date_roundtrip_ex : parse_date (show_date 2024 2 29) = ROk (VDate 2024 2 29)
-  /\ valid_date 2024 2 29 /\ show_date 2024 2 29 = lit "2024-02-29".
-Proof. repeat split; try reflexivity; cbv; congruence. Qed.
+Lemma show_date_shape y m d :
+  show_date y m d = show_int_w 4 y ++ 45 :: show_int_w 2 m ++ 45 :: show_int_w 2 d.
+Proof. unfold show_date. cbn [app]. reflexivity. Qed.
 
-(** without the side condition the statement is false: year -1 is accepted by [Date::new], prints
-    as "-001-01-01" and that text is rejected ([split('-')] yields four parts) *)
-Theorem date_roundtrip_refuted_thm :
-  exists y m d, valid_date y m d /\ date_new y m d = ROk (VDate y m d)
-                /\ negative_year (VDate y m d) = true
-                /\ show_date y m d = lit "-001-01-01"
-                /\ parse_date (show_date y m d) = RErr.
-Proof. exists (-1), 1, 1. unfold valid_date. repeat split; try reflexivity; lia. Qed.
+(** every DATE that [Date::new] accepts — any i32 year, negative ones included — reads back *)
+Theorem date_roundtrip_thm y m d :
+  valid_date y m d -> parse_date (show_date y m d) = ROk (VDate y m d).
+Proof.
+  intros (Hy & Hm & Hd). rewrite show_date_shape. unfold parse_date.
+  destruct (Z.ltb_spec y 0) as [Hneg|Hpos].
+  - (* "-NNN-MM-DD": the leading '-' is stripped and given back to the year *)
+    assert (E : show_int_w 4 y = 45 :: pad_left 3 (show_nat (- y))).
+    { unfold show_int_w. destruct (Z.ltb_spec y 0); [reflexivity | lia]. }
+    rewrite E. cbn [app Z.eqb Pos.eqb fst snd].
+    rewrite md_split by (try lia; apply pad_left_digits, show_nat_digits; lia).
+    rewrite <- E. replace y with (- (- y)) at 1 by lia.
+    unfold parse_i32. rewrite parse_show_neg by lia. rewrite Z.opp_involutive.
+    unfold parse_u8. rewrite !parse_show_int by lia. apply date_new_ok; assumption.
+  - destruct (show_int_w 4 y) as [|c0 r0] eqn:EY; [exfalso; revert EY; apply show_int_w_nonempty, Hpos|].
+    assert (C0 : 48 <= c0 <= 57).
+    { pose proof (show_int_w_digits 4 y Hpos) as DG. rewrite EY in DG. cbn [forallb] in DG.
+      apply andb_true_iff in DG as [DG _]. apply is_digit_range, DG. }
+    cbn [app]. replace (c0 =? 45) with false by (symmetry; apply Z.eqb_neq; lia). cbn [fst snd].
+    change (c0 :: r0 ++ 45 :: show_int_w 2 m ++ 45 :: show_int_w 2 d)
+      with ((c0 :: r0) ++ 45 :: show_int_w 2 m ++ 45 :: show_int_w 2 d).
+    rewrite <- EY. rewrite md_split by (try lia; apply show_int_w_digits, Hpos).
+    unfold parse_i32, parse_u8. rewrite !parse_show_int by lia. apply date_new_ok; assumption.
+Qed.
+
+Example date_roundtrip_ex :
+  valid_date 2024 2 29 /\ show_date 2024 2 29 = lit "2024-02-29"
+  /\ parse_date (lit "2024-02-29") = ROk (VDate 2024 2 29)
+  /\ valid_date (-1) 1 1 /\ show_date (-1) 1 1 = lit "-001-01-01"
+  /\ parse_date (lit "-001-01-01") = ROk (VDate (-1) 1 1)
+  /\ parse_date (show_date (-2147483648) 12 31) = ROk (VDate (-2147483648) 12 31).
+Proof. unfold valid_date. repeat split; try reflexivity; lia. Qed.
 
 (** * TIME *)
 Definition hms_text (h mi s : Z) : str := show_int_w 2 h ++ 58 :: show_int_w 2 mi ++ 58 :: show_int_w 2 s.
@@ -92,13 +105,8 @@ Proof.
   rewrite forallb_app. cbn [forallb]. rewrite forallb_app. cbn [forallb]. rewrite !D by assumption. reflexivity.
 Qed.
 
-Lemma q_time_none p s : (forall c, q_time c = true -> p c = false) -> forallb q_time s = true -> none p s = true.
-Proof. apply none_of_forallb. Qed.
-
 Lemma q_time_cases c : q_time c = true -> (48 <= c <= 57) \/ c = 58 \/ c = 46.
-Proof.
-  unfold q_time. rewrite !orb_true_iff, is_digit_range, !Z.eqb_eq. tauto.
-Qed.
+Proof. unfold q_time. rewrite !orb_true_iff, is_digit_range, !Z.eqb_eq. tauto. Qed.
 
 Lemma hms_nonempty h mi s : 0 <= h -> hms_text h mi s <> [].
 Proof.
@@ -113,20 +121,17 @@ Proof.
   apply show_nat_length; [|lia]. change (10 ^ Z.of_nat 9) with 1000000000. lia.
 Qed.
 
-Lemma slice_to_all s : slice_to (blen s) s = ROk s.
-Proof. unfold slice_to. rewrite <- (app_nil_r s) at 2. rewrite bslice_to_app. reflexivity. Qed.
-
-(** the fraction printed by [Display] (trailing zeros trimmed) reads back as the nanoseconds *)
+(** the fraction printed by [Display] (trailing zeros trimmed) reads back as the nanoseconds:
+    taking 9 characters of the trimmed text followed by '0's restores the 9-digit text *)
 Lemma frac_roundtrip ns : 0 <= ns <= 999999999 ->
   parse_frac9 (trim_end_zeros (show_int_w 9 ns)) = ROk ns.
 Proof.
   intros H. unfold parse_frac9, trim_end_zeros.
-  rewrite pad_right_trim by (apply show9_length, H).
-  assert (A : all_ascii (show_int_w 9 ns) = true) by (apply digits_ascii, show_int_w_digits; lia).
-  rewrite (blen_ascii _ A), show9_length by assumption.
-  change (Z.min 9 (Z.of_nat 9)) with 9.
-  replace 9 with (blen (show_int_w 9 ns)) at 1 by (rewrite (blen_ascii _ A), show9_length by assumption; reflexivity).
-  rewrite slice_to_all. cbn [rbind]. unfold parse_u32. rewrite parse_show_int by lia. reflexivity.
+  rewrite take_pad_pad_right.
+  - rewrite pad_right_trim by (apply show9_length, H).
+    unfold parse_u32. rewrite parse_show_int by lia. reflexivity.
+  - destruct (trim_end_by_split (Z.eqb 48) (show_int_w 9 ns)) as (z & E & _).
+    pose proof (f_equal (@length Z) E) as L. rewrite app_length, show9_length in L by assumption. lia.
 Qed.
 
 Lemma trimmed_frac_digits ns : 0 <= ns -> forallb is_digit (trim_end_zeros (show_int_w 9 ns)) = true.
@@ -159,8 +164,7 @@ Proof.
   rewrite show_time_eq. unfold parse_time.
   destruct (parse_hms_fields h mi s ltac:(lia) ltac:(lia) ltac:(lia)) as (Ph & Pm & Ps).
   assert (N46 : none (Z.eqb 46) (hms_text h mi s) = true).
-  { apply (q_time_none _ _ ltac:(idtac)) || idtac.
-    unfold hms_text. rewrite none_app, none_cons, none_app, none_cons.
+  { unfold hms_text. rewrite none_app, none_cons, none_app, none_cons.
     rewrite !digits_none by (try lia; apply show_int_w_digits; lia). reflexivity. }
   destruct (Z.eqb_spec ns 0) as [->|Hnz].
   - rewrite app_nil_r, find_b_none by exact N46. cbn [rbind fst snd].
@@ -193,14 +197,23 @@ Proof.
   revert E. apply hms_nonempty, Hh.
 Qed.
 
-Lemma show_date_q y m d : 0 <= y -> 0 <= m -> 0 <= d -> forallb q_date (show_date y m d) = true.
+(** any integer, negative ones included, prints with digits and possibly a leading '-' *)
+Lemma show_int_w_q w z : forallb q_date (show_int_w w z) = true.
 Proof.
-  intros Hy Hm Hd. unfold show_date.
-  assert (D : forall w z, 0 <= z -> forallb q_date (show_int_w w z) = true).
-  { intros w z Hz. apply (digits_q q_date); [|apply show_int_w_digits, Hz].
-    intros c Hc. unfold q_date. rewrite Hc. reflexivity. }
-  rewrite !forallb_app, !D by assumption. reflexivity.
+  assert (D : forall s, forallb is_digit s = true -> forallb q_date s = true).
+  { intros s0. apply (digits_q q_date). intros c Hc. unfold q_date. rewrite Hc. reflexivity. }
+  unfold show_int_w. destruct (Z.ltb_spec z 0).
+  - cbn [forallb]. rewrite D by (apply pad_left_digits, show_nat_digits; lia). reflexivity.
+  - apply D, pad_left_digits, show_nat_digits; lia.
 Qed.
+
+Lemma show_int_w_nonempty_any w z : show_int_w w z <> [].
+Proof.
+  unfold show_int_w. destruct (z <? 0); [discriminate | apply pad_left_nonempty, show_nat_nonempty].
+Qed.
+
+Lemma show_date_q y m d : forallb q_date (show_date y m d) = true.
+Proof. unfold show_date. rewrite !forallb_app, !show_int_w_q. reflexivity. Qed.
 
 Lemma q_date_cases c : q_date c = true -> (48 <= c <= 57) \/ c = 45.
 Proof. unfold q_date. rewrite orb_true_iff, is_digit_range, Z.eqb_eq. tauto. Qed.
@@ -210,11 +223,6 @@ Lemma is_ws_cases c : is_ws c = true ->
   \/ c = 8233 \/ c = 8239 \/ c = 8287 \/ c = 12288.
 Proof.
   unfold is_ws. rewrite !orb_true_iff, !andb_true_iff, !Z.leb_le, !Z.eqb_eq. tauto.
-Qed.
-
-Lemma ws_not_sign c : is_ws c = true -> is_sign c = false.
-Proof.
-  intros H. apply is_ws_cases in H. unfold is_sign. apply orb_false_iff. rewrite !Z.eqb_neq. lia.
 Qed.
 
 Lemma trim_id s c r r' c' : s = c :: r -> is_ws c = false -> s = r' ++ [c'] -> is_ws c' = false -> trim s = s.
@@ -229,46 +237,48 @@ Proof.
   destruct r; reflexivity.
 Qed.
 
-(** a candidate offset whose tail is 11 bytes or longer is not a timezone offset *)
+Lemma sign_width c : is_sign c = true -> width c = 1.
+Proof. unfold is_sign. rewrite orb_true_iff, !Z.eqb_eq. intros [->| ->]; reflexivity. Qed.
+
+(** a candidate offset whose tail is 6 bytes or longer is not a timezone offset *)
 Lemma is_tz_offset_long c rest : is_sign c = true -> 6 <= blen rest -> is_tz_offset (c :: rest) = ROk false.
 Proof.
-  intros Hc Hl. unfold is_tz_offset.
-  assert (W : width c = 1).
-  { unfold is_sign in Hc. apply orb_true_iff in Hc. rewrite !Z.eqb_eq in Hc. destruct Hc; subst; reflexivity. }
+  intros Hc Hl. unfold is_tz_offset. pose proof (sign_width c Hc) as W.
   cbn [blen]. rewrite W.
   replace (1 + blen rest <? 3) with false by (symmetry; apply Z.ltb_ge; lia).
   rewrite Hc. cbn [negb]. rewrite slice_from_1 by exact W. cbn [rbind].
-  replace (blen rest =? 5) with false by (symmetry; apply Z.eqb_neq; lia).
-  replace (blen rest =? 4) with false by (symmetry; apply Z.eqb_neq; lia).
-  replace (blen rest =? 2) with false by (symmetry; apply Z.eqb_neq; lia).
+  pose proof (utf8_length rest) as L.
+  replace (length (utf8 rest) =? 5)%nat with false by (symmetry; apply Nat.eqb_neq; lia).
+  replace (length (utf8 rest) =? 4)%nat with false by (symmetry; apply Nat.eqb_neq; lia).
+  replace (length (utf8 rest) =? 2)%nat with false by (symmetry; apply Nat.eqb_neq; lia).
   reflexivity.
 Qed.
 
 Lemma last_char (s : str) : s <> [] -> exists r c, s = r ++ [c].
 Proof. intros H. destruct (exists_last H) as (r & c & E). exists r, c. exact E. Qed.
 
-(** the printed timestamp survives [trim] and [strip_timezone_suffix] untouched *)
+(** the printed timestamp survives [trim] and [strip_timezone_suffix] untouched, for every year *)
 Lemma strip_tz_printed y m d h mi s ns :
-  0 <= y -> 0 <= m -> 0 <= d -> 0 <= h -> 0 <= mi -> 0 <= s -> 0 <= ns ->
+  0 <= m -> 0 <= d -> 0 <= h -> 0 <= mi -> 0 <= s -> 0 <= ns ->
   let text := show_timestamp y m d h mi s ns in
   trim text = text /\ strip_tz text = ROk text.
 Proof.
-  intros Hy Hm Hd Hh Hmi Hs Hn text.
+  intros Hm Hd Hh Hmi Hs Hn text.
   set (D := show_date y m d). set (T := show_time h mi s ns).
-  assert (QD : forallb q_date D = true) by (apply show_date_q; assumption).
+  assert (QD : forallb q_date D = true) by apply show_date_q.
   assert (QT : forallb q_time T = true) by (apply show_time_q; assumption).
   assert (TN : T <> []) by (apply show_time_nonempty; assumption).
   assert (E : text = D ++ 32 :: T) by reflexivity.
   (* first and last characters *)
-  destruct (show_int_w 4 y) as [|c0 r0] eqn:EY; [exfalso; revert EY; apply show_int_w_nonempty, Hy|].
-  assert (C0 : is_digit c0 = true).
-  { pose proof (show_int_w_digits 4 y Hy) as DG. rewrite EY in DG. cbn [forallb] in DG.
+  destruct (show_int_w 4 y) as [|c0 r0] eqn:EY; [exfalso; revert EY; apply show_int_w_nonempty_any|].
+  assert (C0 : q_date c0 = true).
+  { pose proof (show_int_w_q 4 y) as DG. rewrite EY in DG. cbn [forallb] in DG.
     apply andb_true_iff in DG as [DG _]. exact DG. }
   destruct (last_char T TN) as (rT & cT & ET).
   assert (CT : q_time cT = true).
   { rewrite forallb_forall in QT. apply QT. rewrite ET. apply in_or_app. right. left. reflexivity. }
   assert (WS0 : is_ws c0 = false).
-  { apply is_digit_range in C0. destruct (is_ws c0) eqn:W; [|reflexivity]. apply is_ws_cases in W. lia. }
+  { apply q_date_cases in C0. destruct (is_ws c0) eqn:W; [|reflexivity]. apply is_ws_cases in W. lia. }
   assert (WST : is_ws cT = false).
   { apply q_time_cases in CT. destruct (is_ws cT) eqn:W; [|reflexivity]. apply is_ws_cases in W. lia. }
   assert (Etext1 : text = c0 :: (r0 ++ [45] ++ show_int_w 2 m ++ [45] ++ show_int_w 2 d) ++ 32 :: T).
@@ -282,7 +292,7 @@ Proof.
   replace (cT =? 90) with false by (symmetry; apply Z.eqb_neq; apply q_time_cases in CT; lia).
   replace (cT =? 122) with false by (symmetry; apply Z.eqb_neq; apply q_time_cases in CT; lia).
   cbn [orb].
-  (* the last sign is the second '-' of the date *)
+  (* the last sign is the second '-' separator of the date *)
   set (a := show_int_w 4 y ++ 45 :: show_int_w 2 m).
   set (b := show_int_w 2 d ++ 32 :: T).
   assert (Eab : text = a ++ 45 :: b).
@@ -309,17 +319,16 @@ Proof.
   change (width 32) with 1. lia.
 Qed.
 
-(** every valid TIMESTAMP with a non-negative year reads back from its text *)
+(** every valid TIMESTAMP reads back from its text (any i32 year) *)
 Theorem timestamp_roundtrip_thm y m d h mi s ns :
-  valid_date y m d -> valid_time h mi s ns -> negative_year (VTimestamp y m d h mi s ns) = false ->
+  valid_date y m d -> valid_time h mi s ns ->
   parse_timestamp (show_timestamp y m d h mi s ns) = ROk (VTimestamp y m d h mi s ns).
 Proof.
-  intros VD VT Hneg. pose proof VD as (Hy & Hm & Hd). pose proof VT as (Hh & Hmi & Hs & Hn).
-  cbn [negative_year] in Hneg. apply Z.ltb_ge in Hneg.
+  intros VD VT. pose proof VD as (Hy & Hm & Hd). pose proof VT as (Hh & Hmi & Hs & Hn).
   destruct (strip_tz_printed y m d h mi s ns) as (TR & ST); try lia.
   unfold parse_timestamp. rewrite TR, ST. cbn [rbind].
   set (D := show_date y m d). set (T := show_time h mi s ns).
-  assert (QD : forallb q_date D = true) by (apply show_date_q; lia).
+  assert (QD : forallb q_date D = true) by apply show_date_q.
   assert (QT : forallb q_time T = true) by (apply show_time_q; lia).
   assert (E : show_timestamp y m d h mi s ns = D ++ 32 :: T) by reflexivity.
   rewrite E.
@@ -339,32 +348,28 @@ Proof.
       destruct (is_ws c) eqn:W; [|reflexivity]. apply is_ws_cases in W. lia. }
   cbn [filter].
   assert (DN : is_nil D = false).
-  { unfold D, show_date. destruct (show_int_w 4 y) eqn:EY; [exfalso; revert EY; apply show_int_w_nonempty; lia | reflexivity]. }
+  { unfold D, show_date. destruct (show_int_w 4 y) eqn:EY; [exfalso; revert EY; apply show_int_w_nonempty_any | reflexivity]. }
   assert (TN : is_nil T = false).
   { destruct T eqn:ET; [exfalso; revert ET; apply show_time_nonempty; lia | reflexivity]. }
   rewrite DN, TN. cbn [negb].
-  unfold D, T. rewrite date_roundtrip_thm by (try assumption; cbn [negative_year]; apply Z.ltb_ge; lia).
+  unfold D, T. rewrite date_roundtrip_thm by assumption.
   rewrite time_roundtrip_thm by assumption. reflexivity.
 Qed.
 
 Example timestamp_roundtrip_ex :
   show_timestamp 2024 1 5 1 2 3 500000000 = lit "2024-01-05 01:02:03.5"
-  /\ parse_timestamp (lit "2024-01-05 01:02:03.5") = ROk (VTimestamp 2024 1 5 1 2 3 500000000).
-Proof. split; reflexivity. Qed.
+  /\ parse_timestamp (lit "2024-01-05 01:02:03.5") = ROk (VTimestamp 2024 1 5 1 2 3 500000000)
+  /\ show_timestamp (-12345678) 1 1 1 2 3 4 = lit "-12345678-01-01 01:02:03.000000004"
+  /\ parse_timestamp (lit "-12345678-01-01 01:02:03.000000004") = ROk (VTimestamp (-12345678) 1 1 1 2 3 4).
+Proof. repeat split; reflexivity. Qed.
 
-Theorem timestamp_roundtrip_refuted_thm :
-  exists y m d h mi s ns, valid_date y m d /\ valid_time h mi s ns
-    /\ negative_year (VTimestamp y m d h mi s ns) = true
-    /\ parse_timestamp (show_timestamp y m d h mi s ns) = RErr.
-Proof. exists (-1), 1, 1, 0, 0, 0, 0. unfold valid_date, valid_time. repeat split; try reflexivity; lia. Qed.
-
-(** the same through [SqlValue]'s Display (display.rs delegates to the inner Display) *)
-
+(** the same through [SqlValue]'s Display (display.rs delegates to the inner Display), with
+    "equal" in the sense of C21's [eqb] *)
 Theorem value_roundtrip_thm v t :
-  valid_temporal v -> negative_year v = false -> show_temporal v = Some t ->
+  valid_temporal v -> show_temporal v = Some t ->
   parse_as v t = ROk v /\ (forall w, parse_as v t = ROk w -> eqb v w = true).
 Proof.
-  intros V N S.
+  intros V S.
   assert (P : parse_as v t = ROk v).
   { destruct v; try contradiction; cbn [show_temporal] in S; inversion S; subst; cbn [parse_as valid_temporal] in *.
     - apply date_roundtrip_thm; assumption.
@@ -374,18 +379,18 @@ Proof.
   destruct w; try contradiction; cbn [eqb]; rewrite ?Z.eqb_refl; reflexivity.
 Qed.
 
-(** printing is injective on the values covered by the round trip *)
+(** printing is injective on valid values of the same type *)
 Corollary show_temporal_inj v w t :
-  valid_temporal v -> valid_temporal w -> negative_year v = false -> negative_year w = false ->
+  valid_temporal v -> valid_temporal w ->
   show_temporal v = Some t -> show_temporal w = Some t ->
   (match v, w with
    | VDate _ _ _, VDate _ _ _ | VTime _ _ _ _, VTime _ _ _ _
    | VTimestamp _ _ _ _ _ _ _, VTimestamp _ _ _ _ _ _ _ => True | _, _ => False end) ->
   v = w.
 Proof.
-  intros Vv Vw Nv Nw Sv Sw K.
-  destruct (value_roundtrip_thm v t Vv Nv Sv) as (Pv & _).
-  destruct (value_roundtrip_thm w t Vw Nw Sw) as (Pw & _).
+  intros Vv Vw Sv Sw K.
+  destruct (value_roundtrip_thm v t Vv Sv) as (Pv & _).
+  destruct (value_roundtrip_thm w t Vw Sw) as (Pw & _).
   destruct v, w; try contradiction; cbn [parse_as] in *; congruence.
 Qed.
 
@@ -410,7 +415,7 @@ Example interval_roundtrip_ex :
   interval_new (lit "1-6 YEAR TO MONTH") = ROk {| iv_text := lit "1-6 YEAR TO MONTH"; iv_months := 18; iv_days := 0; iv_micros := 0 |}.
 Proof. reflexivity. Qed.
 
-(** * Totality: which inputs can make the parsers panic *)
+(** * Totality: no parser panics, on any string *)
 
 Lemma rbind_no_panic {A B} (r : res A) (f : A -> res B) :
   is_panic r = false -> (forall a, r = ROk a -> is_panic (f a) = false) -> is_panic (rbind r f) = false.
@@ -425,146 +430,58 @@ Proof. unfold time_new. destruct (23 <? h), (59 <? mi), (59 <? s), (999999999 <?
 Lemma mk_timestamp_no_panic d t : is_panic (mk_timestamp d t) = false.
 Proof. destruct d, t; reflexivity. Qed.
 
-(** [Date::from_str] never panics, on any string whatsoever *)
+(** [Date::from_str] never panics *)
 Theorem parse_date_total_thm s : is_panic (parse_date s) = false.
 Proof.
-  unfold parse_date. destruct (split_on 45 s) as [|a [|b [|c [|? ?]]]]; try reflexivity.
-  destruct (parse_i32 a); [|reflexivity]. destruct (parse_u8 b); [|reflexivity].
+  unfold parse_date.
+  destruct (split_on 45 _) as [|a [|b [|c [|? ?]]]]; try reflexivity.
+  destruct (parse_i32 _); [|reflexivity]. destruct (parse_u8 b); [|reflexivity].
   destruct (parse_u8 c); [|reflexivity]. apply date_new_no_panic.
 Qed.
 
-Example parse_date_total_ex : parse_date [45; 233; 45; 8364; 45] = RErr /\ parse_date [] = RErr.
-Proof. split; reflexivity. Qed.
+Example parse_date_total_ex : parse_date [45; 233; 45; 8364; 45] = RErr /\ parse_date [] = RErr /\ parse_date [45] = RErr.
+Proof. repeat split; reflexivity. Qed.
 
-(** ** TIME *)
-Lemma pad_right_blen9 w f : Z.of_nat w <= blen (pad_right w f).
-Proof. pose proof (blen_length_le (pad_right w f)). pose proof (pad_right_length w f). lia. Qed.
+Lemma parse_frac9_no_panic f : is_panic (parse_frac9 f) = false.
+Proof. unfold parse_frac9. destruct (parse_u32 _); reflexivity. Qed.
 
-Lemma parse_frac9_ascii f : all_ascii f = true -> is_panic (parse_frac9 f) = false.
+(** [Time::from_str] never panics: the only slices are at the position of the first '.' *)
+Theorem parse_time_total_thm s : is_panic (parse_time s) = false.
 Proof.
-  intros A. unfold parse_frac9, slice_to.
-  assert (Ap : all_ascii (pad_right 9 f) = true) by (apply pad_right_ascii, A).
-  pose proof (blen_nonneg (pad_right 9 f)).
-  destruct (bslice_to_ascii (pad_right 9 f) (Z.min 9 (blen (pad_right 9 f))) Ap ltac:(lia)) as (p & -> & _).
-  cbn [rbind]. destruct (parse_u32 p); reflexivity.
-Qed.
-
-(** exactly when the fraction step panics: byte 9 of the zero-padded fraction is inside a character *)
-
-Lemma parse_frac9_panic_iff f : is_panic (parse_frac9 f) = frac_cut f.
-Proof.
-  unfold parse_frac9, frac_cut, slice_to.
-  pose proof (pad_right_blen9 9 f) as L. change (Z.of_nat 9) with 9 in L.
-  rewrite Z.min_l by lia.
-  destruct (bslice_to 9 (pad_right 9 f)); [|reflexivity].
-  cbn [rbind]. destruct (parse_u32 s); reflexivity.
-Qed.
-
-Lemma frac_nonascii_infix x s : infix x s -> frac_nonascii s = false -> frac_nonascii x = false.
-Proof.
-  intros Hi. unfold frac_nonascii. destruct (after_first (Z.eqb 46) x) as [f|] eqn:E; [|reflexivity].
-  destruct (after_first_infix _ _ _ _ Hi E) as (f' & -> & Hf). intros Hs.
-  apply negb_false_iff in Hs. apply negb_false_iff. eapply all_ascii_infix; eassumption.
-Qed.
-
-Lemma frac_ascii_of a b : none (Z.eqb 46) a = true -> frac_nonascii (a ++ 46 :: b) = false -> all_ascii b = true.
-Proof.
-  intros Ha H. unfold frac_nonascii in H. rewrite after_first_app in H by (assumption || reflexivity).
-  apply negb_false_iff in H. exact H.
-Qed.
-
-(** [Time::from_str] never panics on a text whose part after the first '.' is ASCII *)
-Theorem parse_time_total_thm s : frac_nonascii s = false -> is_panic (parse_time s) = false.
-Proof.
-  intros Hf. unfold parse_time. destruct (find_b (Z.eqb 46) s) as [k|] eqn:F.
+  unfold parse_time. destruct (find_b (Z.eqb 46) s) as [k|] eqn:F.
   - destruct (find_b_inv _ _ _ F) as (a & d & b & -> & -> & Hd & Ha). apply eqb46 in Hd. subst d.
     destruct (slices_at a 46 b eq_refl) as (S1 & _ & S3). rewrite S1, S3. cbn [rbind fst snd].
-    pose proof (frac_ascii_of a b Ha Hf) as Ab.
     destruct (split_on 58 a) as [|x [|y [|z [|? ?]]]]; try reflexivity.
     destruct (parse_u8 x); [|reflexivity]. destruct (parse_u8 y); [|reflexivity].
     destruct (parse_u8 z); [|reflexivity].
-    apply rbind_no_panic; [apply parse_frac9_ascii, Ab | intros; apply time_new_no_panic].
+    apply rbind_no_panic; [apply parse_frac9_no_panic | intros; apply time_new_no_panic].
   - cbn [rbind fst snd].
     destruct (split_on 58 s) as [|x [|y [|z [|? ?]]]]; try reflexivity.
     destruct (parse_u8 x); [|reflexivity]. destruct (parse_u8 y); [|reflexivity].
     destruct (parse_u8 z); [|reflexivity]. cbn [rbind]. apply time_new_no_panic.
 Qed.
 
-(** ... and the panic is characterised exactly: it happens iff the three time fields parse and the
-    fraction is cut inside a character *)
-Theorem parse_time_panic_inv s k :
-  parse_time s = RPanic k ->
-  k = PSlice /\ exists f, after_first (Z.eqb 46) s = Some f /\ frac_cut f = true.
-Proof.
-  unfold parse_time. destruct (find_b (Z.eqb 46) s) as [p|] eqn:F.
-  - destruct (find_b_inv _ _ _ F) as (a & d & b & -> & -> & Hd & Ha). apply eqb46 in Hd. subst d.
-    destruct (slices_at a 46 b eq_refl) as (S1 & _ & S3). rewrite S1, S3. cbn [rbind fst snd].
-    rewrite after_first_app by (assumption || reflexivity).
-    destruct (split_on 58 a) as [|x [|y [|z [|? ?]]]]; try discriminate.
-    destruct (parse_u8 x); [|discriminate]. destruct (parse_u8 y); [|discriminate].
-    destruct (parse_u8 z); [|discriminate].
-    pose proof (parse_frac9_panic_iff b) as PI.
-    destruct (parse_frac9 b) as [n| |k'] eqn:PF; cbn [rbind is_panic] in *.
-    + intros H. pose proof (time_new_no_panic z0 z1 z2 n) as NP. rewrite H in NP. discriminate.
-    + discriminate.
-    + intros H. inversion H; subst. split; [|exists b; split; [reflexivity | symmetry; exact PI]].
-      unfold parse_frac9, slice_to in PF.
-      destruct (bslice_to _ _); cbn [rbind] in PF; [destruct (parse_u32 s); discriminate | inversion PF; reflexivity].
-  - cbn [rbind fst snd].
-    destruct (split_on 58 s) as [|x [|y [|z [|? ?]]]]; try discriminate.
-    destruct (parse_u8 x); [|discriminate]. destruct (parse_u8 y); [|discriminate].
-    destruct (parse_u8 z); [|discriminate]. cbn [rbind]. intros H.
-    pose proof (time_new_no_panic z0 z1 z2 0) as NP. rewrite H in NP. discriminate.
-Qed.
-
+(** the inputs on which the code panicked before repair e051995f now give [Err] *)
 Example parse_time_total_ex :
-  frac_nonascii (lit "12:30:45.5x") = false /\ parse_time (lit "12:30:45.5x") = RErr
-  /\ frac_nonascii ([233] ++ lit ":30:45.5") = false /\ parse_time ([233] ++ lit ":30:45.5") = RErr.
+  parse_time (lit "00:00:00." ++ [233; 233; 233; 233; 233]) = RErr
+  /\ parse_time (lit "00:00:00.1234" ++ [8364; 8364; 8364]) = RErr
+  /\ parse_time (lit "00:00:00.12345678" ++ [233; 233]) = RErr.
 Proof. repeat split; reflexivity. Qed.
 
-(** the unconditional statement is false: "00:00:00.ééééé" ([&padded[..9]] cuts the fifth 'é') *)
-Theorem parse_time_total_refuted_thm :
-  exists s, frac_nonascii s = true /\ parse_time s = RPanic PSlice.
-Proof. exists (lit "00:00:00." ++ [233; 233; 233; 233; 233]). split; reflexivity. Qed.
-
-(** ** TIMESTAMP *)
-Lemma sign_width c : is_sign c = true -> width c = 1.
-Proof. unfold is_sign. rewrite orb_true_iff, !Z.eqb_eq. intros [->| ->]; reflexivity. Qed.
-
-Lemma is_tz_offset_ascii c b : is_sign c = true -> all_ascii b = true -> exists r, is_tz_offset (c :: b) = ROk r.
+(** [is_timezone_offset] always answers (it works on bytes; [s[1..]] follows an ASCII sign) *)
+Lemma is_tz_offset_ok c b : is_sign c = true -> exists r, is_tz_offset (c :: b) = ROk r.
 Proof.
-  intros Hc Ab. unfold is_tz_offset. destruct (blen (c :: b) <? 3); [eexists; reflexivity|].
+  intros Hc. unfold is_tz_offset. destruct (blen (c :: b) <? 3); [eexists; reflexivity|].
   rewrite Hc. cbn [negb]. rewrite slice_from_1 by (apply sign_width, Hc). cbn [rbind].
-  destruct ((blen b =? 5) && match nth_error b 2 with Some c0 => c0 =? 58 | None => false end) eqn:K.
-  - apply andb_true_iff in K as [K _]. apply Z.eqb_eq in K. unfold slice_to, slice_from.
-    destruct (bslice_to_ascii b 2 Ab ltac:(lia)) as (p & -> & _). cbn [rbind].
-    destruct (forallb is_digit p); [|eexists; reflexivity].
-    destruct (bslice_from_ascii b 3 Ab ltac:(lia)) as (q & ->). cbn [rbind]. eexists; reflexivity.
-  - destruct (blen b =? 4); [eexists; reflexivity|]. destruct (blen b =? 2); eexists; reflexivity.
+  destruct ((length (utf8 b) =? 5)%nat && (nth 2 (utf8 b) 0 =? 58)); [eexists; reflexivity|].
+  destruct (length (utf8 b) =? 4)%nat; [eexists; reflexivity|].
+  destruct (length (utf8 b) =? 2)%nat; eexists; reflexivity.
 Qed.
 
-Lemma tz_ascii_of a d b : is_sign d = true -> none is_sign b = true ->
-  tz_nonascii (a ++ d :: b) = false -> all_ascii b = true.
+(** [strip_timezone_suffix] always returns an infix of its argument *)
+Lemma strip_tz_ok t : exists part, strip_tz t = ROk part /\ infix part t.
 Proof.
-  intros Hd Hb H. unfold tz_nonascii in H. rewrite after_last_app in H by assumption.
-  apply negb_false_iff in H. exact H.
-Qed.
-
-Lemma tz_cond_trim s : tz_nonascii s = false -> tz_nonascii (trim s) = false.
-Proof.
-  intros H. destruct (trim_split s) as (wa & wz & E & _ & Wz).
-  unfold tz_nonascii. destruct (after_last is_sign (trim s)) as [b|] eqn:AL; [|reflexivity].
-  destruct (after_last_inv _ _ _ AL) as (a & d & Et & Hd & Hb).
-  assert (Nz : none is_sign wz = true) by (apply (none_of_forallb is_ws is_sign); [apply ws_not_sign | exact Wz]).
-  assert (Es : s = (wa ++ a) ++ d :: (b ++ wz)).
-  { rewrite E, Et, <- !app_assoc. cbn [app]. reflexivity. }
-  rewrite Es in H. apply tz_ascii_of in H; [| exact Hd | rewrite none_app, Hb, Nz; reflexivity].
-  rewrite all_ascii_app in H. apply andb_true_iff in H as [H _]. apply negb_false_iff. exact H.
-Qed.
-
-Lemma strip_tz_ok t : tz_nonascii t = false -> exists part, strip_tz t = ROk part /\ infix part t.
-Proof.
-  intros H. unfold strip_tz. destruct (ends_with 90 t || ends_with 122 t) eqn:EW.
+  unfold strip_tz. destruct (ends_with 90 t || ends_with 122 t) eqn:EW.
   - assert (R : exists r c, t = r ++ [c] /\ width c = 1).
     { apply orb_true_iff in EW as [EW|EW]; apply ends_with_inv in EW as (r & ->); eexists _, _; split; reflexivity. }
     destruct R as (r & c & -> & W). rewrite blen_app. cbn [blen]. rewrite W.
@@ -574,319 +491,152 @@ Proof.
     destruct (rfind_b_inv _ _ _ R) as (a & d & b & -> & -> & Hd & Hb).
     destruct (10 <? blen a); [|eexists; split; [reflexivity | apply infix_refl]].
     destruct (slices_at a d b (sign_width d Hd)) as (S1 & S2 & _). rewrite S2. cbn [rbind].
-    destruct (is_tz_offset_ascii d b Hd (tz_ascii_of a d b Hd Hb H)) as ([|] & ->); cbn [rbind].
+    destruct (is_tz_offset_ok d b Hd) as ([|] & ->); cbn [rbind].
     + rewrite S1. exists a. split; [reflexivity | apply infix_prefix].
     + eexists; split; [reflexivity | apply infix_refl].
 Qed.
 
-(** [Timestamp::from_str] never panics on a text that is ASCII after its first '.' and after its
-    last '+'/'-' *)
-Theorem parse_timestamp_total_thm s :
-  frac_nonascii s = false -> tz_nonascii s = false -> is_panic (parse_timestamp s) = false.
+(** [Timestamp::from_str] never panics *)
+Theorem parse_timestamp_total_thm s : is_panic (parse_timestamp s) = false.
 Proof.
-  intros Hf Hz. unfold parse_timestamp.
-  destruct (strip_tz_ok (trim s) (tz_cond_trim s Hz)) as (part & -> & Hi). cbn [rbind].
-  assert (Hps : infix part s) by (eapply infix_trans; [exact Hi | apply trim_infix]).
+  unfold parse_timestamp.
+  destruct (strip_tz_ok (trim s)) as (part & -> & _). cbn [rbind].
   destruct (find_b (Z.eqb 84) part) as [k|] eqn:F.
   - destruct (find_b_inv _ _ _ F) as (a & d & b & -> & -> & Hd & Ha).
     apply Z.eqb_eq in Hd. subst d.
     destruct (slices_at a 84 b eq_refl) as (S1 & _ & S3). rewrite S1, S3. cbn [rbind].
     apply rbind_no_panic; [apply parse_date_total_thm | intros dv _].
-    apply rbind_no_panic; [| intros tv _; apply mk_timestamp_no_panic].
-    apply parse_time_total_thm. apply (frac_nonascii_infix b s); [|exact Hf].
-    eapply infix_trans; [|exact Hps]. exists (a ++ [84]), []. rewrite app_nil_r, <- app_assoc. reflexivity.
+    apply rbind_no_panic; [apply parse_time_total_thm | intros tv _; apply mk_timestamp_no_panic].
   - destruct (split_ws part) as [|x [|y [|? ?]]] eqn:SW; try reflexivity.
     + pose proof (parse_date_total_thm x) as PD.
       destruct (parse_date x); [apply mk_timestamp_no_panic | reflexivity | discriminate].
     + apply rbind_no_panic; [apply parse_date_total_thm | intros dv _].
-      apply rbind_no_panic; [| intros tv _; apply mk_timestamp_no_panic].
-      apply parse_time_total_thm. apply (frac_nonascii_infix y s); [|exact Hf].
-      eapply infix_trans; [|exact Hps]. apply split_ws_infix. rewrite SW. right. left. reflexivity.
+      apply rbind_no_panic; [apply parse_time_total_thm | intros tv _; apply mk_timestamp_no_panic].
 Qed.
 
+(** the inputs on which the code panicked before repairs e051995f / 947265c2 *)
 Example parse_timestamp_total_ex :
-  let s := [160] ++ lit "2024-01-05T01:02:03.25+05:30 " in
-  frac_nonascii s = false /\ tz_nonascii s = false
-  /\ parse_timestamp s = ROk (VTimestamp 2024 1 5 1 2 3 250000000).
+  parse_timestamp (lit "2024-01-01 00:00:00." ++ [233; 233; 233; 233; 233] ++ lit "+") = RErr
+  /\ parse_timestamp (lit "2024-01-01 00:00:00+1" ++ [233] ++ lit ":2") = RErr
+  /\ parse_timestamp ([160] ++ lit "2024-01-05T01:02:03.25+05:30 ") = ROk (VTimestamp 2024 1 5 1 2 3 250000000).
 Proof. repeat split; reflexivity. Qed.
 
-(** both side conditions are needed *)
-Theorem parse_timestamp_total_refuted_frac_thm :
-  exists s, frac_nonascii s = true /\ tz_nonascii s = false /\ parse_timestamp s = RPanic PSlice.
-Proof. exists (lit "2024-01-01 00:00:00." ++ [233; 233; 233; 233; 233] ++ lit "+"). repeat split; reflexivity. Qed.
+(** ** INTERVAL: always a triple, and its fields fit i32 / i32 / i64 *)
+Lemma sat32_range r : i32_min <= sat i32_min i32_max r <= i32_max.
+Proof. unfold sat, i32_min, i32_max. lia. Qed.
+Lemma sat64_range r : i64_min <= sat i64_min i64_max r <= i64_max.
+Proof. unfold sat, i64_min, i64_max. lia. Qed.
 
-Theorem parse_timestamp_total_refuted_tz_thm :
-  exists s, frac_nonascii s = false /\ tz_nonascii s = true /\ parse_timestamp s = RPanic PSlice.
-Proof. exists (lit "2024-01-01 00:00:00+1" ++ [233] ++ lit ":2"). repeat split; reflexivity. Qed.
-
-(** ** INTERVAL *)
-Lemma chk_ok lo hi r : lo <= r <= hi -> chk lo hi r = ROk r.
+Lemma or0_i32_range x : i32_min <= or0 (parse_i32 x) <= i32_max.
 Proof.
-  intros H. unfold chk. replace ((lo <=? r) && (r <=? hi)) with true; [reflexivity|].
-  symmetry. apply andb_true_iff. rewrite !Z.leb_le. lia.
+  unfold or0, i32_min, i32_max. destruct (parse_i32 x) eqn:P; [|lia].
+  apply parse_int_inv in P as (_ & _ & _ & _ & _ & R). exact R.
 Qed.
 
-Lemma nth_split_ws_infix s n : infix (nth n (split_ws s) []) s.
+Lemma seconds_ok x : exists v, parse_seconds_us x = ROk v /\ i64_min <= v <= i64_max.
 Proof.
-  destruct (nth_in_or_default n (split_ws s) []) as [H | ->]; [apply split_ws_infix, H | apply infix_nil].
+  unfold parse_seconds_us. destruct (find_b (Z.eqb 46) x) as [k|] eqn:F.
+  - destruct (find_b_inv _ _ _ F) as (a & d & b & -> & -> & Hd & Ha). apply eqb46 in Hd. subst d.
+    destruct (slices_at a 46 b eq_refl) as (S1 & _ & S3). rewrite S1, S3. cbn [rbind].
+    eexists. split; [reflexivity | apply sat64_range].
+  - eexists. split; [reflexivity | apply sat64_range].
 Qed.
 
-Lemma to_unit_exists (parts : list str) k x :
-  nth_error parts k = Some x -> eq_ic x kw_to = true ->
-  match rev parts with w :: _ => eq_ic w kw_to | [] => false end = false ->
-  exists u, nth_error parts (k + 1) = Some u.
+Lemma time_us_ok x : exists v, parse_time_us x = ROk v /\ i64_min <= v <= i64_max.
 Proof.
-  intros Hk Hx Hl. destruct (nth_error parts (k + 1)) as [u|] eqn:E; [eauto|]. exfalso.
-  apply nth_error_None in E.
-  assert (k < length parts)%nat by (apply nth_error_Some; congruence).
-  destruct (nth_error_last parts k x Hk ltac:(lia)) as (r & ->).
-  rewrite rev_app_distr in Hl. cbn [rev app] in Hl. congruence.
+  unfold parse_time_us.
+  assert (Z0 : i64_min <= 0 <= i64_max) by (unfold i64_min, i64_max; lia).
+  destruct (split_on 58 x) as [|p0 [|p1 [|p2 rest]]].
+  - eexists; split; [reflexivity | exact Z0].
+  - eexists; split; [reflexivity|]. destruct (parse_i64 p0); [apply sat64_range | exact Z0].
+  - eexists; split; [reflexivity|].
+    destruct (parse_i64 p1); [apply sat64_range|]. destruct (parse_i64 p0); [apply sat64_range | exact Z0].
+  - destruct (seconds_ok p2) as (v & -> & _). cbn [rbind]. eexists; split; [reflexivity | apply sat64_range].
 Qed.
 
-Section IntervalTotal.
-  Variable s : str.
-  Hypothesis Hfrac : frac_nonascii s = false.
-  Hypothesis Hnum : long_number s = false.
+Lemma zero_triple : triple_in_range (0, 0, 0).
+Proof. unfold triple_in_range, i32_min, i32_max, i64_min, i64_max. lia. Qed.
 
-  Lemma small_parse sg lo hi x v : infix x s -> parse_int sg lo hi x = Some v -> -100000000 < v < 100000000.
-  Proof.
-    intros Hi P. apply parse_int_inv in P as (ds & Hs & _ & Hd & Hb & _).
-    assert (Hds : infix ds s).
-    { eapply infix_trans; [|exact Hi]. destruct Hs as [->|[->| ->]];
-        [apply infix_refl | apply infix_cons, infix_refl | apply infix_cons, infix_refl]. }
-    pose proof (max_run_infix ds s Hds Hd) as L.
-    unfold long_number in Hnum. apply Nat.ltb_ge in Hnum.
-    assert (10 ^ Z.of_nat (length ds) <= 10 ^ 8) by (apply Z.pow_le_mono_r; lia).
-    change (10 ^ 8) with 100000000 in *. lia.
-  Qed.
+Lemma triple_intro mo d us :
+  i32_min <= mo <= i32_max -> i32_min <= d <= i32_max -> i64_min <= us <= i64_max -> triple_in_range (mo, d, us).
+Proof. unfold triple_in_range. tauto. Qed.
 
-  Lemma or0_small sg lo hi x : infix x s -> -100000000 < or0 (parse_int sg lo hi x) < 100000000.
-  Proof.
-    intros Hi. unfold or0. destruct (parse_int sg lo hi x) eqn:P; [|lia].
-    eapply small_parse; eassumption.
-  Qed.
+Lemma z32 : i32_min <= 0 <= i32_max. Proof. unfold i32_min, i32_max; lia. Qed.
+Lemma z64 : i64_min <= 0 <= i64_max. Proof. unfold i64_min, i64_max; lia. Qed.
 
-  Lemma seconds_ok x : infix x s ->
-    exists v, parse_seconds_us x = ROk v /\ -100000001000000 < v < 100000001000000.
-  Proof.
-    intros Hi. unfold parse_seconds_us. destruct (find_b (Z.eqb 46) x) as [k|] eqn:F.
-    - destruct (find_b_inv _ _ _ F) as (a & d & b & -> & -> & Hd & Ha). apply eqb46 in Hd. subst d.
-      destruct (slices_at a 46 b eq_refl) as (S1 & _ & S3). rewrite S1, S3. cbn [rbind].
-      pose proof (frac_ascii_of a b Ha (frac_nonascii_infix _ _ Hi Hfrac)) as Ab.
-      assert (Ap : all_ascii (pad_right 6 b) = true) by (apply pad_right_ascii, Ab).
-      pose proof (pad_right_blen9 6 b) as L6. change (Z.of_nat 6) with 6 in L6.
-      destruct (bslice_to_ascii (pad_right 6 b) 6 Ap ltac:(lia)) as (f6 & E6 & Lf).
-      unfold slice_to. rewrite E6. cbn [rbind].
-      assert (Hw : -100000000 < or0 (parse_i64 a) < 100000000).
-      { apply or0_small. eapply infix_trans; [apply infix_prefix | exact Hi]. }
-      assert (Hfr : -1000000 < or0 (parse_i64 f6) < 1000000).
-      { unfold or0. destruct (parse_i64 f6) eqn:P; [|lia]. apply parse_int_abs_bound in P.
-        rewrite Lf in P. change (10 ^ Z.of_nat (Z.to_nat 6)) with 1000000 in P. lia. }
-      unfold mul64. rewrite chk_ok by lia. cbn [rbind]. unfold add64. rewrite chk_ok by lia.
-      eexists. split; [reflexivity | lia].
-    - pose proof (or0_small true (-9223372036854775808) 9223372036854775807 x Hi) as Hw.
-      fold parse_i64 in Hw. unfold mul64. rewrite chk_ok by lia.
-      eexists. split; [reflexivity | lia].
-  Qed.
+Lemma interval_simple_ok v u : exists t, interval_simple v u = ROk t /\ triple_in_range t.
+Proof.
+  unfold interval_simple.
+  repeat match goal with |- context [if ?c then _ else _] => destruct c end;
+    try (eexists; split; [reflexivity|];
+         first [ apply zero_triple
+               | apply triple_intro; first [apply sat32_range | apply sat64_range | apply or0_i32_range | apply z32 | apply z64] ]).
+  destruct (seconds_ok v) as (x & -> & R). cbn [rbind]. eexists; split; [reflexivity|].
+  apply triple_intro; [apply z32 | apply z32 | exact R].
+Qed.
 
-  Lemma field_ok t p k : infix p s -> k = 3600 \/ k = 60 ->
-    -1000000000000000000 < t < 1000000000000000000 ->
-    exists v, match parse_i64 p with
-              | Some h => a <- mul64 h k ;; b <- mul64 a 1000000 ;; add64 t b
-              | None => ROk t
-              end = ROk v
-              /\ -360000000000000000 <= v - t <= 360000000000000000.
-  Proof.
-    intros Hi Hk Ht. destruct (parse_i64 p) as [h|] eqn:P; [|exists t; split; [reflexivity | lia]].
-    pose proof (small_parse _ _ _ _ _ Hi P) as Hh.
-    unfold mul64, add64. destruct Hk; subst k;
-      (rewrite chk_ok by lia; cbn [rbind]; rewrite chk_ok by lia; cbn [rbind]; rewrite chk_ok by lia;
-       eexists; split; [reflexivity | lia]).
-  Qed.
-
-  Lemma time_us_ok x : infix x s -> exists v, parse_time_us x = ROk v.
-  Proof.
-    intros Hi. unfold parse_time_us, split_on.
-    pose proof (split_by_infix (Z.eqb 58) x) as SI.
-    assert (SI' : forall p, In p (split_by (Z.eqb 58) x) -> infix p s).
-    { intros p Hp. eapply infix_trans; [apply SI, Hp | exact Hi]. }
-    clear SI.
-    destruct (split_by (Z.eqb 58) x) as [|p0 [|p1 [|p2 rest]]].
-    - cbn [rbind]. eexists; reflexivity.
-    - destruct (field_ok 0 p0 3600 (SI' p0 ltac:(left; reflexivity)) ltac:(left; reflexivity) ltac:(lia)) as (v1 & -> & B1).
-      cbn [rbind]. eexists; reflexivity.
-    - destruct (field_ok 0 p0 3600 (SI' p0 ltac:(left; reflexivity)) ltac:(left; reflexivity) ltac:(lia)) as (v1 & -> & B1).
-      cbn [rbind].
-      destruct (field_ok v1 p1 60 (SI' p1 ltac:(right; left; reflexivity)) ltac:(right; reflexivity) ltac:(lia)) as (v2 & -> & B2).
-      cbn [rbind]. eexists; reflexivity.
-    - destruct (field_ok 0 p0 3600 (SI' p0 ltac:(left; reflexivity)) ltac:(left; reflexivity) ltac:(lia)) as (v1 & -> & B1).
-      cbn [rbind].
-      destruct (field_ok v1 p1 60 (SI' p1 ltac:(right; left; reflexivity)) ltac:(right; reflexivity) ltac:(lia)) as (v2 & -> & B2).
-      cbn [rbind].
-      destruct (seconds_ok p2 (SI' p2 ltac:(right; right; left; reflexivity))) as (v3 & -> & B3).
-      cbn [rbind]. unfold add64. rewrite chk_ok by lia. eexists; reflexivity.
-  Qed.
-
-  Lemma mul32_12_ok x : infix x s -> mul32 (or0 (parse_i32 x)) 12 = ROk (or0 (parse_i32 x) * 12).
-  Proof. intros Hi. pose proof (or0_small true (-2147483648) 2147483647 x Hi) as H. fold parse_i32 in H. unfold mul32. apply chk_ok. lia. Qed.
-
-  Lemma interval_simple_ok v u : infix v s -> is_panic (interval_simple v u) = false.
-  Proof.
-    intros Hi. unfold interval_simple.
-    pose proof (or0_small true (-9223372036854775808) 9223372036854775807 v Hi) as H64. fold parse_i64 in H64.
-    repeat match goal with |- context [if ?c then _ else _] => destruct c end; try reflexivity.
-    - rewrite mul32_12_ok by assumption. reflexivity.
-    - unfold mul64. rewrite chk_ok by lia. cbn [rbind]. rewrite chk_ok by lia. reflexivity.
-    - unfold mul64. rewrite chk_ok by lia. cbn [rbind]. rewrite chk_ok by lia. reflexivity.
-    - destruct (seconds_ok v Hi) as (x & -> & _). reflexivity.
-  Qed.
-
-  Hypothesis Hto : to_is_last s = false.
-
-  Lemma interval_compound_ok k :
-    position (fun p => eq_ic p kw_to) (split_ws s) = Some k ->
-    is_panic (interval_compound (split_ws s) k) = false.
-  Proof.
-    intros P. unfold interval_compound.
-    destruct (position_inv _ _ _ P) as (x & Hx & Ex).
-    destruct (to_unit_exists (split_ws s) k x Hx Ex Hto) as (u & ->). cbn [rbind].
-    pose proof (nth_split_ws_infix s 0) as Hv. set (vp := nth 0 (split_ws s) []) in *.
-    repeat match goal with |- context [if ?c then _ else _] => destruct c end; try reflexivity.
-    - destruct (find_b (Z.eqb 45) vp) as [n|] eqn:F.
-      + destruct (find_b_inv _ _ _ F) as (a & d & b & E & -> & Hd & Ha). apply Z.eqb_eq in Hd. subst d.
-        rewrite E. destruct (slices_at a 45 b eq_refl) as (S1 & _ & S3). rewrite S1, S3. cbn [rbind].
-        assert (Ia : infix a s) by (eapply infix_trans; [apply infix_prefix | rewrite <- E; exact Hv]).
-        assert (Ib : infix b s).
-        { eapply infix_trans; [|exact Hv]. rewrite E. exists (a ++ [45]), []. rewrite app_nil_r, <- app_assoc. reflexivity. }
-        rewrite mul32_12_ok by assumption. cbn [rbind].
-        pose proof (or0_small true (-2147483648) 2147483647 a Ia) as Ha'. pose proof (or0_small true (-2147483648) 2147483647 b Ib) as Hb'.
-        fold parse_i32 in Ha', Hb'. unfold add32. rewrite chk_ok by lia. reflexivity.
-      + rewrite mul32_12_ok by assumption. reflexivity.
-    - destruct (find_b (Z.eqb 32) vp) as [n|] eqn:F; [|reflexivity].
-      destruct (find_b_inv _ _ _ F) as (a & d & b & E & -> & Hd & Ha). apply Z.eqb_eq in Hd. subst d.
+Lemma interval_compound_ok parts k : exists t, interval_compound parts k = ROk t /\ triple_in_range t.
+Proof.
+  unfold interval_compound. set (vp := nth 0 parts []).
+  repeat match goal with |- context [if ?c then _ else _] => destruct c end.
+  - destruct (find_b (Z.eqb 45) vp) as [n|] eqn:F.
+    + destruct (find_b_inv _ _ _ F) as (a & d & b & E & -> & Hd & Ha). apply Z.eqb_eq in Hd. subst d.
+      rewrite E. destruct (slices_at a 45 b eq_refl) as (S1 & _ & S3). rewrite S1, S3. cbn [rbind].
+      eexists; split; [reflexivity|]. apply triple_intro; [apply sat32_range | apply z32 | apply z64].
+    + eexists; split; [reflexivity|]. apply triple_intro; [apply sat32_range | apply z32 | apply z64].
+  - destruct (find_b (Z.eqb 32) vp) as [n|] eqn:F.
+    + destruct (find_b_inv _ _ _ F) as (a & d & b & E & -> & Hd & Ha). apply Z.eqb_eq in Hd. subst d.
       rewrite E. destruct (slices_at a 32 b eq_refl) as (S1 & _ & S3). rewrite S1, S3. cbn [rbind].
-      assert (Ib : infix (trim b) s).
-      { eapply infix_trans; [apply trim_infix|]. eapply infix_trans; [|exact Hv]. rewrite E.
-        exists (a ++ [32]), []. rewrite app_nil_r, <- app_assoc. reflexivity. }
-      destruct (time_us_ok _ Ib) as (v & ->). reflexivity.
-    - destruct (time_us_ok _ Hv) as (v & ->). reflexivity.
-  Qed.
-
-  Theorem parse_interval_total_sec : is_panic (parse_interval s) = false.
-  Proof.
-    unfold parse_interval. destruct (split_ws s) as [|p0 ps] eqn:SW; [reflexivity|].
-    destruct (position (fun p => eq_ic p kw_to) (p0 :: ps)) as [k|] eqn:P.
-    - destruct (2 <=? k)%nat; [|reflexivity]. rewrite <- SW. apply interval_compound_ok. rewrite SW. exact P.
-    - destruct ps as [|u rest]; [reflexivity|]. apply interval_simple_ok.
-      apply split_ws_infix. rewrite SW. left. reflexivity.
-  Qed.
-End IntervalTotal.
-
-(** [Interval::new] / [Interval::from_str] never panic on a text that is ASCII after its first
-    '.', has no run of more than eight digits, and does not end in the word TO *)
-Theorem parse_interval_total_thm s :
-  frac_nonascii s = false -> long_number s = false -> to_is_last s = false ->
-  is_panic (parse_interval s) = false /\ is_panic (interval_new s) = false.
-Proof.
-  intros H1 H2 H3. pose proof (parse_interval_total_sec s H1 H2 H3) as P. split; [exact P|].
-  unfold interval_new. destruct (parse_interval s) as [[[mo d] us]| |]; cbn [rbind is_panic] in *; congruence.
+      destruct (time_us_ok (trim b)) as (v & -> & R). cbn [rbind].
+      eexists; split; [reflexivity|]. apply triple_intro; [apply z32 | apply or0_i32_range | exact R].
+    + eexists; split; [reflexivity|]. apply triple_intro; [apply z32 | apply or0_i32_range | apply z64].
+  - destruct (time_us_ok vp) as (v & -> & R). cbn [rbind].
+    eexists; split; [reflexivity|]. apply triple_intro; [apply z32 | apply z32 | exact R].
+  - eexists; split; [reflexivity | apply zero_triple].
 Qed.
 
+(** [Interval::parse_interval] returns a triple for EVERY string — no panic (no unchecked index,
+    no byte slice inside a character, no overflow) — and the triple fits the field types *)
+Theorem parse_interval_ok_thm s : exists t, parse_interval s = ROk t /\ triple_in_range t.
+Proof.
+  unfold parse_interval. destruct (split_ws s) as [|p0 ps]; [eexists; split; [reflexivity | apply zero_triple]|].
+  destruct (position _ (p0 :: ps)) as [k|].
+  - destruct (2 <=? k)%nat; [apply interval_compound_ok | eexists; split; [reflexivity | apply zero_triple]].
+  - destruct ps as [|u rest]; [eexists; split; [reflexivity | apply zero_triple] | apply interval_simple_ok].
+Qed.
+
+(** [Interval::new] / [Interval::from_str]: always [Ok], never a panic, never [Err] *)
+Theorem interval_new_total_thm s :
+  exists i, interval_new s = ROk i /\ iv_text i = s
+            /\ triple_in_range (iv_months i, iv_days i, iv_micros i).
+Proof.
+  destruct (parse_interval_ok_thm s) as ([[mo d] us] & P & R).
+  unfold interval_new. rewrite P. cbn [rbind]. eexists. split; [reflexivity | split; [reflexivity | exact R]].
+Qed.
+
+Corollary parse_interval_total_thm s :
+  is_panic (parse_interval s) = false /\ is_panic (interval_new s) = false /\ interval_new s <> RErr.
+Proof.
+  destruct (parse_interval_ok_thm s) as (t & P & _). destruct (interval_new_total_thm s) as (i & I & _).
+  rewrite P, I. repeat split; discriminate.
+Qed.
+
+(** the inputs on which the code panicked before repair 21946acd: the trailing TO, the fraction
+    cut, and the four overflow sites now saturate *)
 Example parse_interval_total_ex :
-  let s := lit "99999999-11 year  TO month" in
-  frac_nonascii s = false /\ long_number s = false /\ to_is_last s = false
-  /\ parse_interval s = ROk (1199999999, 0, 0).
+  parse_interval (lit "1 YEAR TO") = ROk (0, 0, 0)
+  /\ parse_interval (lit "1.a" ++ [233; 233; 233; 233; 233] ++ lit " SECOND") = ROk (0, 0, 1000000)
+  /\ parse_interval (lit "200000000 YEAR") = ROk (2147483647, 0, 0)
+  /\ parse_interval (lit "-200000000 YEAR") = ROk (-2147483648, 0, 0)
+  /\ parse_interval (lit "178956970-8 YEAR TO MONTH") = ROk (2147483647, 0, 0)
+  /\ parse_interval (lit "2562047789 HOUR") = ROk (0, 0, 9223372036854775807)
+  /\ parse_interval (lit "9223372036854.775808 SECOND") = ROk (0, 0, 9223372036854775807)
+  /\ parse_interval (lit "99999999:99999999:99999999.999999 HOUR TO SECOND") = ROk (0, 0, 366099996339999999).
 Proof. repeat split; reflexivity. Qed.
 
-Example parse_interval_total_ex2 :
-  let s := lit "99999999:99999999:99999999.999999 HOUR TO SECOND" in
-  frac_nonascii s = false /\ long_number s = false /\ to_is_last s = false
-  /\ parse_interval s = ROk (0, 0, 366099996339999999).
-Proof. repeat split; reflexivity. Qed.
-
-(** each side condition is needed: one panicking input per class, outside the other classes *)
-Theorem parse_interval_total_refuted_frac_thm :
-  exists s, frac_nonascii s = true /\ long_number s = false /\ to_is_last s = false
-            /\ parse_interval s = RPanic PSlice.
-Proof. exists (lit "1.a" ++ [233; 233; 233; 233; 233] ++ lit " SECOND"). repeat split; reflexivity. Qed.
-
-Theorem parse_interval_total_refuted_overflow_thm :
-  exists s1 s2 s3 s4,
-    (frac_nonascii s1 = false /\ long_number s1 = true /\ to_is_last s1 = false /\ parse_interval s1 = RPanic POverflow)
-    /\ (long_number s2 = true /\ parse_interval s2 = RPanic POverflow)
-    /\ (long_number s3 = true /\ parse_interval s3 = RPanic POverflow)
-    /\ (long_number s4 = true /\ parse_interval s4 = RPanic POverflow).
-Proof.
-  exists (lit "200000000 YEAR"), (lit "178956970-8 YEAR TO MONTH"), (lit "2562047789 HOUR"),
-         (lit "9223372036854.775808 SECOND").
-  repeat split; reflexivity.
-Qed.
-
-Theorem parse_interval_total_refuted_to_thm :
-  exists s, frac_nonascii s = false /\ long_number s = false /\ to_is_last s = true
-            /\ parse_interval s = RPanic PIndex.
-Proof. exists (lit "1 YEAR TO"). repeat split; reflexivity. Qed.
-
-(** [Interval::from_str] is [Ok(Interval::new(..))]: it never returns [Err] *)
-Lemma slice_not_err n x : slice_to n x <> RErr /\ slice_from n x <> RErr.
-Proof. unfold slice_to, slice_from. destruct (bslice_to n x), (bslice_from n x); split; discriminate. Qed.
-
-Definition not_err {A} (r : res A) : bool := match r with RErr => false | _ => true end.
-
-Lemma rbind_ne {A B} (r : res A) (f : A -> res B) :
-  not_err r = true -> (forall a, not_err (f a) = true) -> not_err (rbind r f) = true.
-Proof. intros Hr Hf. destruct r; cbn [rbind not_err] in *; [apply Hf | discriminate | reflexivity]. Qed.
-Lemma slice_to_ne n x : not_err (slice_to n x) = true.
-Proof. unfold slice_to. destruct (bslice_to n x); reflexivity. Qed.
-Lemma slice_from_ne n x : not_err (slice_from n x) = true.
-Proof. unfold slice_from. destruct (bslice_from n x); reflexivity. Qed.
-Lemma chk_ne lo hi r : not_err (chk lo hi r) = true.
-Proof. unfold chk. destruct ((lo <=? r) && (r <=? hi)); reflexivity. Qed.
-
-Ltac ne_step :=
-  first [ reflexivity
-        | apply slice_to_ne | apply slice_from_ne | apply chk_ne
-        | apply rbind_ne; [|intros] ].
-
-Lemma parse_seconds_us_ne x : not_err (parse_seconds_us x) = true.
-Proof.
-  unfold parse_seconds_us, mul64, add64. destruct (find_b (Z.eqb 46) x); repeat ne_step.
-Qed.
-
-Lemma parse_time_us_ne x : not_err (parse_time_us x) = true.
-Proof.
-  unfold parse_time_us, mul64, add64.
-  destruct (split_on 58 x) as [|p0 [|p1 [|p2 rest]]];
-    repeat first [ apply parse_seconds_us_ne | ne_step
-                 | match goal with |- context [match parse_i64 ?p with _ => _ end] => destruct (parse_i64 p) end ].
-Qed.
-
-Lemma interval_simple_ne v u : not_err (interval_simple v u) = true.
-Proof.
-  unfold interval_simple, mul32, mul64.
-  repeat match goal with |- context [if ?c then _ else _] => destruct c end;
-    repeat first [ apply parse_seconds_us_ne | ne_step ].
-Qed.
-
-Lemma interval_compound_ne parts k : not_err (interval_compound parts k) = true.
-Proof.
-  unfold interval_compound, mul32, add32.
-  apply rbind_ne; [destruct (nth_error parts (k + 1)); reflexivity | intros u].
-  repeat match goal with |- context [if ?c then _ else _] => destruct c end;
-    repeat first [ apply parse_time_us_ne | ne_step
-                 | match goal with |- context [match find_b ?p ?x with _ => _ end] => destruct (find_b p x) end ].
-Qed.
-
-(** [Interval::from_str] never returns [Err] (it is [Ok(Interval::new(s))]) *)
-Theorem interval_new_never_err_thm s : interval_new s <> RErr.
-Proof.
-  assert (H : not_err (parse_interval s) = true).
-  { unfold parse_interval. destruct (split_ws s) as [|p0 ps]; [reflexivity|].
-    destruct (position _ (p0 :: ps)) as [k|].
-    - destruct (2 <=? k)%nat; [apply interval_compound_ne | reflexivity].
-    - destruct ps; [reflexivity | apply interval_simple_ne]. }
-  unfold interval_new. destruct (parse_interval s) as [[[mo d] us]| |]; cbn [rbind not_err] in *; congruence.
-Qed.
+(** saturation only happens beyond the type bounds: where the exact result fits, it is returned *)
+Lemma sat_exact lo hi r : lo <= r <= hi -> sat lo hi r = r.
+Proof. unfold sat. lia. Qed.
 
 (** the DAY arm's [value_part.find(' ')] never finds anything: a whitespace-split word has no ' ' *)
 Lemma split_ws_no_space s n : find_b (Z.eqb 32) (nth n (split_ws s) []) = None.
